@@ -14,7 +14,7 @@ cd /verif
 pids=()
 for id in "$@"; do
   ( VERIF_REPO=$S/repo VERIF_HARNESS_DIR=$S/harness VERIF_OUT_DIR=$S/out ./check "$id" --tier quick >$S/out/$id.log 2>&1; rc=$?
-    echo "== $id exit=$rc $(grep -E '^VIOLATION' $S/out/$id.log | head -1 | sed 's#replay=.*/##')" ) &
+    echo "== $id exit=$rc $(grep -aE "^VIOLATION" $S/out/$id.log | head -1 | sed 's#replay=.*/##')" ) &
 done
 wait
 git -C $S/repo checkout -q -- .
